@@ -18,6 +18,9 @@ Proof.
   rewrite !concat_app. cbn. rewrite !app_nil_r, <- app_assoc. reflexivity.
 Qed.
 
+Lemma txt_set_local s l : txt (set_local s l) = txt s.
+Proof. reflexivity. Qed.
+
 Lemma tw_add_txt sm t x r st : txt (tw_add sm t x r st) = txt st.
 Proof. destruct st as [[o n l c a e] loc]. unfold tw_add, txt. cbn [fst w_err]. destruct e; [reflexivity|]. destruct sm; reflexivity. Qed.
 
@@ -112,6 +115,48 @@ Proof.
   cbn [tabs brepeat]. rewrite <- !app_assoc. reflexivity.
 Qed.
 
+Definition hdr6 (sm : bool) (pkg : token) : est :=
+  let st2 := tw_wr (lit "package ") (tw_wr c_header init_st) in
+  let st4 := if Z.ltb 0 (t_line pkg) then tw_write_add sm (t_lit pkg) pkg st2 else tw_wr (t_lit pkg) st2 in
+  fold_left (fun s i => tw_wr (lit "import " ++ i ++ [10]) s) c_rootImports (tw_wr [10; 10] st4).
+
+Lemma header_state_unfold sm pkg user :
+  header_state sm pkg user =
+  match user with
+  | [] => hdr6 sm pkg
+  | _ =>
+    let s1 := tw_wr (lit "import (" ++ [10]) (hdr6 sm pkg) in
+    let s2 := fold_left (fun s (i : token) => tw_wr [10] (tw_write_indent_add sm (t_lit i) i s)) user (set_local s1 (indent_local (snd s1) 1)) in
+    tw_wr (lit ")" ++ [10]) (set_local s2 (snd s1))
+  end.
+Proof. unfold header_state, hdr6. rewrite emit_node_unfold. unfold emit_node_body. cbn [emit_list fst]. reflexivity. Qed.
+
+Lemma hdr6_facts sm pkg :
+  quiet (hdr6 sm pkg) /\ snd (hdr6 sm pkg) = wl_init /\
+  txt (hdr6 sm pkg) = c_header ++ lit "package " ++ t_lit pkg ++ [10; 10] ++ List.concat (map (fun i => lit "import " ++ i ++ [10]) c_rootImports).
+Proof.
+  unfold hdr6. cbv zeta.
+  assert (Q0 : quiet init_st) by (split; reflexivity).
+  destruct (tw_wr_quiet c_header _ Q0) as [Q1 L1].
+  destruct (tw_wr_quiet (lit "package ") _ Q1) as [Q2 L2].
+  pose proof (tw_wr_txt (lit "package ") _ Q1) as T2. rewrite (tw_wr_txt c_header _ Q0) in T2.
+  change (txt init_st) with (@nil N) in T2. rewrite app_nil_l in T2.
+  assert (E2 : snd (tw_wr (lit "package ") (tw_wr c_header init_st)) = wl_init) by (rewrite L2, L1; reflexivity).
+  generalize dependent (tw_wr (lit "package ") (tw_wr c_header init_st)). intros st2 Q2 _ T2 E2. clear L1 Q1.
+  assert (H4 : forall st4, st4 = (if Z.ltb 0 (t_line pkg) then tw_write_add sm (t_lit pkg) pkg st2 else tw_wr (t_lit pkg) st2) ->
+                quiet st4 /\ snd st4 = snd st2 /\ txt st4 = txt st2 ++ t_lit pkg).
+  { intros st4 ->. destruct (Z.ltb 0 (t_line pkg)).
+    - destruct (tw_write_add_quiet sm (t_lit pkg) pkg _ Q2). split; [assumption|]. split; [assumption|]. apply tw_write_add_txt. exact Q2.
+    - destruct (tw_wr_quiet (t_lit pkg) _ Q2). split; [assumption|]. split; [assumption|]. apply tw_wr_txt. exact Q2. }
+  destruct (H4 _ eq_refl) as (Q4 & L4 & T4). clear H4.
+  generalize dependent (if Z.ltb 0 (t_line pkg) then tw_write_add sm (t_lit pkg) pkg st2 else tw_wr (t_lit pkg) st2). intros st4 Q4 L4 T4.
+  destruct (tw_wr_quiet [10; 10] _ Q4) as [Q5 L5].
+  pose proof (fold_imports_txt c_rootImports _ Q5) as T6.
+  destruct (fold_imports_quiet c_rootImports _ Q5) as [Q6 L6].
+  split; [exact Q6|]. split; [rewrite L6, L5, L4; exact E2|].
+  rewrite T6, (tw_wr_txt [10; 10] _ Q4), T4, T2. rewrite <- !app_assoc. reflexivity.
+Qed.
+
 Theorem header_text_is pkg user :
   header_text pkg user =
     c_header ++ lit "package " ++ t_lit pkg ++ [10; 10] ++
@@ -121,41 +166,27 @@ Theorem header_text_is pkg user :
     | _ => lit "import (" ++ [10] ++ List.concat (map (fun i : token => [9] ++ t_lit i ++ [10]) user) ++ lit ")" ++ [10]
     end.
 Proof.
-  unfold header_text, header_state. rewrite emit_node_unfold. unfold emit_node_body. cbn [emit_list fst]. cbv zeta.
-  assert (Q0 : quiet init_st) by (split; reflexivity).
-  destruct (tw_wr_quiet c_header _ Q0) as [Q1 L1].
-  destruct (tw_wr_quiet (lit "package ") _ Q1) as [Q2 L2].
-  set (st2 := tw_wr (lit "package ") (tw_wr c_header init_st)) in *.
-  assert (T2 : txt st2 = c_header ++ lit "package ").
-  { subst st2. rewrite tw_wr_txt by exact Q1. rewrite tw_wr_txt by exact Q0. reflexivity. }
-  set (st4 := if Z.ltb 0 (t_line pkg) then tw_write_add false (t_lit pkg) pkg st2 else tw_wr (t_lit pkg) st2).
-  assert (H4 : quiet st4 /\ snd st4 = snd st2 /\ txt st4 = txt st2 ++ t_lit pkg).
-  { subst st4. destruct (Z.ltb 0 (t_line pkg)).
-    - destruct (tw_write_add_quiet false (t_lit pkg) pkg _ Q2). split; [assumption|]. split; [assumption|]. apply tw_write_add_txt. exact Q2.
-    - destruct (tw_wr_quiet (t_lit pkg) _ Q2). split; [assumption|]. split; [assumption|]. apply tw_wr_txt. exact Q2. }
-  destruct H4 as (Q4 & L4 & T4). clearbody st4.
-  destruct (tw_wr_quiet [10; 10] _ Q4) as [Q5 L5].
-  pose proof (fold_imports_txt c_rootImports _ Q5) as T6.
-  destruct (fold_imports_quiet c_rootImports _ Q5) as [Q6 L6].
-  match goal with |- context [fold_left ?f c_rootImports ?x] => set (st6 := fold_left f c_rootImports x) in * end.
-  rewrite tw_wr_txt in T6 by exact Q4. rewrite T4, T2 in T6.
-  assert (E6 : snd st6 = wl_init) by (rewrite L6, L5, L4, L2, L1; reflexivity).
+  unfold header_text. rewrite header_state_unfold.
+  destruct (hdr6_facts false pkg) as (Q6 & E6 & T6).
+  generalize dependent (hdr6 false pkg). intros st6 Q6 E6 T6.
   destruct user as [|u user].
-  - rewrite T6. rewrite <- !app_assoc. rewrite app_nil_r. reflexivity.
-  - destruct (tw_wr_quiet (lit "import (" ++ [10]) _ Q6) as [Q7 L7].
-    set (s1 := tw_wr (lit "import (" ++ [10]) st6) in *.
+  - rewrite T6. rewrite <- ?app_assoc. rewrite ?app_nil_r. reflexivity.
+  - cbv zeta.
+    destruct (tw_wr_quiet (lit "import (" ++ [10]) _ Q6) as [Q7 L7].
+    pose proof (tw_wr_txt (lit "import (" ++ [10]) st6 Q6) as T7.
+    generalize dependent (tw_wr (lit "import (" ++ [10]) st6). intros s1 Q7 L7 T7.
     assert (Q8 : quiet (set_local s1 (indent_local (snd s1) 1))).
-    { destruct Q7 as [A B]. split; [exact A|]. cbn. exact B. }
+    { destruct Q7 as [A B]. split; [exact A|]. cbn [set_local snd indent_local wl_static]. exact B. }
     assert (I8 : wl_indent (snd (set_local s1 (indent_local (snd s1) 1))) = 1%nat).
-    { cbn. rewrite L7, E6. reflexivity. }
+    { cbn [set_local snd indent_local wl_indent]. rewrite L7, E6. reflexivity. }
     pose proof (fold_user_imports_txt false (u :: user) _ Q8 I8) as T9.
     destruct (fold_user_imports_quiet false (u :: user) _ Q8) as [Q9 L9].
-    match goal with |- context [fold_left ?f (u :: user) ?x] => set (s2 := fold_left f (u :: user) x) in * end.
+    generalize dependent (fold_left (fun s (i : token) => tw_wr [10] (tw_write_indent_add false (t_lit i) i s)) (u :: user) (set_local s1 (indent_local (snd s1) 1))).
+    intros s2 T9 Q9 L9.
     assert (Q10 : quiet (set_local s2 (snd s1))).
     { destruct Q9 as [A _]. destruct Q7 as [_ B]. split; [exact A|exact B]. }
     rewrite tw_wr_txt by exact Q10.
-    change (txt (set_local s2 (snd s1))) with (txt s2). rewrite T9.
-    change (txt (set_local s1 (indent_local (snd s1) 1))) with (txt s1). subst s1. rewrite tw_wr_txt by exact Q6. rewrite T6.
+    rewrite txt_set_local, T9, txt_set_local, T7, T6.
     rewrite <- !app_assoc. reflexivity.
 Qed.
 
